@@ -90,6 +90,15 @@ func (w *c14world) next(m *c14mach) (val string, stop bool) {
 			return c14F(l.F, m.a), false
 		}
 		return "", true
+	case "gapped":
+		// recur comes first and the guard fails on every third value: a step that ends in StopIterErr has
+		// still moved the iterator on, so the following steps yield again
+		cur := m.a
+		m.a++
+		if cur%3 == 2 {
+			return "", true
+		}
+		return c14F(l.F, cur), false
 	case "nilyield":
 		// every second step yields nil first: a yielded nil is the step's value like any other
 		if m.a < l.N {
@@ -118,7 +127,7 @@ func (w *c14world) next(m *c14mach) (val string, stop bool) {
 
 func (l *c14lit) finite() bool {
 	switch l.kind {
-	case "counter", "recurfirst", "fib", "kwstep", "captured", "factory", "nilyield":
+	case "counter", "recurfirst", "fib", "kwstep", "captured", "factory", "nilyield", "gapped":
 		return true
 	}
 	return false
@@ -126,7 +135,7 @@ func (l *c14lit) finite() bool {
 
 func c14genLit(rng *rand.Rand, idx int, allowCaptured bool) *c14lit {
 	l := &c14lit{name: fmt.Sprintf("g%d", idx), N: rng.Intn(7), S: 1 + rng.Intn(3), F: []string{"i", "i*2", "[i, i]"}[rng.Intn(3)]}
-	kinds := []string{"counter", "counter", "fib", "kwstep", "infinite", "twoyields", "recurfirst", "const", "factory", "factory", "nilyield"}
+	kinds := []string{"counter", "counter", "fib", "kwstep", "infinite", "twoyields", "recurfirst", "const", "factory", "factory", "nilyield", "gapped"}
 	if allowCaptured {
 		kinds = append(kinds, "captured")
 	}
@@ -165,6 +174,11 @@ func c14genLit(rng *rand.Rand, idx int, allowCaptured bool) *c14lit {
 		l.src = fmt.Sprintf("<{|i| recur(i + %d); yield %s if i < %d}>", l.S, fe, l.N)
 	case "const":
 		l.src = fmt.Sprintf("<{|i| yield %s if i < %d}>", fe, l.N)
+	case "gapped":
+		l.src = fmt.Sprintf("<{|i| recur(i + 1); yield %s if i %% 3 != 2}>", fe)
+		if rng.Intn(2) == 0 {
+			l.src = fmt.Sprintf("<{|i| defer recur(i + 1); yield %s if i %% 3 != 2}>", fe)
+		}
 	case "nilyield":
 		l.N = 2 + rng.Intn(6)
 		if rng.Intn(2) == 0 {
@@ -194,6 +208,9 @@ func (l *c14lit) newMach(rng *rand.Rand) (*c14mach, string) {
 		return m, fmt.Sprint(m.a)
 	}
 	m.a = rng.Intn(5) - 1
+	if l.kind == "gapped" {
+		m.a = rng.Intn(5)
+	}
 	return m, fmt.Sprint(m.a)
 }
 
